@@ -110,8 +110,147 @@ def emptyObs (files : Nat) : Obs :=
 /-- number of ops before the discipline is first left (model side, for the statistics column) -/
 def disciplined {p : Nat} (sh : Sh p) (ops : List (Op p)) : Bool := allOk sh {} ops
 
+/-! ### mode `maps`: hosts + their backends through a real `haproxy.Instance`
+
+  `C05 maps <n> <p> <op>,<op>,... => <hosts>|<maps>;...`
+
+ops (each one is what a partial resync of one ingress does: RemoveAll of the host and of its
+backend, then both are parsed again): `hX.C` host X gets content C (odd = root redirect),
+`bX.B` the backend of host X gets content B (odd = ssl-redirect), `dX` host and backend removed,
+`c` config.Clear(), `u` apply what was recorded (one RemoveAll, one parse per touched host) and HAProxyUpdate.  hosts: `x:c`, maps: `x:c:s` (entry of host x decoded from
+the map files that haproxy.cfg references; s = listed in the root-ssl map). -/
+
+inductive MOp (p : Nat) where
+  | host (x : Fin p) (c : Nat)
+  | back (x : Fin p) (b : Nat)
+  | drop (x : Fin p)
+  | clear
+  | update
+
+def parseMOp (p : Nat) (s : String) : Option (MOp p) :=
+  if s = "c" then some .clear
+  else if s = "u" then some .update
+  else
+    let rest := ((s.drop 1).toString).splitOn "."
+    if s.startsWith "h" then
+      match rest with
+      | [x, c] => do some (.host (← toFin p x) (← c.toNat?))
+      | _ => none
+    else if s.startsWith "b" then
+      match rest with
+      | [x, b] => do some (.back (← toFin p x) (← b.toNat?))
+      | _ => none
+    else if s.startsWith "d" then
+      match rest with
+      | [x] => do some (.drop (← toFin p x))
+      | _ => none
+    else none
+
+/-- driver state: the desired hosts/backends recorded by `h`/`b`/`d` ops are applied at the next
+`u` the way one resync does it: one `RemoveAll` of everything touched, then every touched host is
+parsed once (so every batch follows the discipline), then `HAProxyUpdate` -/
+structure MState (p : Nat) where
+  s : HStore p := {}
+  hcur : Fin p → Option Nat := fun _ => none
+  bcur : Fin p → Nat := fun _ => 0
+  touched : List (Fin p) := []
+
+def mstep {p : Nat} (st : MState p) : MOp p → MState p
+  | .host x c => { st with hcur := fun y => if y = x then some c else st.hcur y, touched := x :: st.touched }
+  | .back x b => { st with bcur := fun y => if y = x then b else st.bcur y, touched := x :: st.touched }
+  | .drop x => { st with hcur := fun y => if y = x then none else st.hcur y, touched := x :: st.touched }
+  | .clear => { st with s := st.s.clear, hcur := fun _ => none, touched := [] }
+  | .update =>
+    let s1 := st.s.removeAll st.touched
+    let s2 := st.touched.foldl (fun s x =>
+      let s' := match st.hcur x with
+        | some c => s.acquire x c
+        | none => s
+      s'.backend x (st.bcur x)) s1
+    { st with s := s2.update, touched := [] }
+
+structure MEnt where
+  name : Nat
+  cfg : Nat
+  ssl : Nat
+deriving DecidableEq
+
+structure MObs where
+  hosts : List (Nat × Nat)
+  maps : List MEnt
+deriving DecidableEq
+
+def mobsOf {p : Nat} (s : HStore p) : MObs :=
+  { hosts := (List.finRange p).filterMap fun x => (s.items x).map fun c => (x.val, c)
+    maps := (List.finRange p).filterMap fun x => (s.maps x).map fun e =>
+      { name := x.val, cfg := e.1, ssl := if e.2 then 1 else 0 } }
+
+def showMObs (o : MObs) : String :=
+  (if o.hosts.isEmpty then "-" else "+".intercalate (o.hosts.map fun h => s!"{h.1}:{h.2}")) ++ "|" ++
+  (if o.maps.isEmpty then "-" else "+".intercalate (o.maps.map fun e => s!"{e.name}:{e.cfg}:{e.ssl}"))
+
+def parseMObs (s : String) : Option MObs :=
+  match s.splitOn "|" with
+  | [h, m] => do
+    let hs ← parseList (fun t => match t.splitOn ":" with
+      | [a, b] => do some (← a.toNat?, ← b.toNat?)
+      | _ => none) h "+"
+    let ms ← parseList (fun t => match t.splitOn ":" with
+      | [a, b, c] => do some ({ name := ← a.toNat?, cfg := ← b.toNat?, ssl := ← c.toNat? } : MEnt)
+      | _ => none) m "+"
+    some { hosts := hs, maps := ms }
+  | _ => none
+
+def mtrace {p : Nat} : MState p → List (MOp p) → List MObs
+  | _, [] => []
+  | st, op :: ops => let st' := mstep st op; mobsOf st'.s :: mtrace st' ops
+
+/-- Spec on one observation taken right after an update: the map files hold, for every current
+host, its entry and the root-ssl entry its CURRENT backend asks for; nothing else -/
+def mapsClause (bcur : Nat → Nat) (o : MObs) : Option String :=
+  if o.maps.any (fun e => !(o.hosts.any fun h => h.1 == e.name)) then some "stale-frontend-map-entry"
+  else if o.hosts.any (fun h => !(o.maps.any fun e => e.name == h.1)) then some "missing-frontend-map-entry"
+  else if o.hosts.any (fun h => o.maps.any fun e => e.name == h.1 && e.cfg != h.2) then
+    some "outdated-frontend-map-entry"
+  else if o.hosts.any (fun h => o.maps.any fun e => e.name == h.1 && e.ssl == 1 &&
+      !(hasRoot h.2 && sslOf (bcur h.1))) then some "stale-frontend-map-entry"
+  else if o.hosts.any (fun h => o.maps.any fun e => e.name == h.1 && e.ssl != 1 &&
+      (hasRoot h.2 && sslOf (bcur h.1))) then some "missing-frontend-map-entry"
+  else none
+
+def mspec {p : Nat} : (Nat → Nat) → List (MOp p) → List MObs → Option String
+  | _, [], _ => none
+  | _, _, [] => none
+  | bcur, op :: ops, o :: os =>
+    let bcur' : Nat → Nat := match op with
+      | .back x b => fun y => if y = x.val then b else bcur y
+      | _ => bcur
+    let r := match op with
+      | .update => mapsClause bcur' o
+      | _ => none
+    match r with
+    | some c => some c
+    | none => mspec bcur' ops os
+
+def handleMaps (p : String) (ops : String) (impl : String) : Verdict :=
+  match p.toNat? with
+  | none => bad "args"
+  | some p =>
+    match parseList (parseMOp p) ops "," with
+    | none => bad "ops"
+    | some ops =>
+      if impl.startsWith "PANIC" then { model := "-", agree := false, oracle := some "panic-in-instance-update" } else
+      let m := ";".intercalate ((mtrace ({} : MState p) ops).map showMObs)
+      match (impl.splitOn ";").mapM parseMObs with
+      | none => { model := m, agree := false, oracle := some "unparsable-implementation-output" }
+      | some obs =>
+        { model := m, agree := m == impl && obs.length == ops.length
+          oracle := mspec (fun _ => 0) ops obs
+          trivial := !(ops.any fun | .update => true | _ => false) }
+
 def handle (args : List String) (impl : String) : Verdict :=
   match args with
+  | ["maps", _n, p, ops] => handleMaps p ops impl
   | [mode, n, shards, ops] =>
     match n.toNat?, parseList parseNat? shards "." with
     | some n, some shl =>
